@@ -6,6 +6,7 @@ from vp import build, core, globals as G
 WRAP = "-Wl,--wrap=ran_start -Wl,--wrap=ran_num_next -Wl,--wrap=rand -Wl,--wrap=srand -Wl,--wrap=time -Wl,--wrap=localtime"
 def exes():
     return {"sched": build.link("plain-nopool", "c17_sched", ["c17_sched.c"], WRAP),
+            "sched_fn": build.link("plain-nopool-instr", "c17_sched", ["c17_sched.c"], WRAP),
             "tsan": build.link("tsan-nopool", "c17_tsan", ["kernel.c", "c17_tsan.c"], "-Wl,--wrap=exit -Wl,--wrap=time")}
 def prepare(): exes()
 
@@ -63,6 +64,24 @@ def run(tier):
     rep.add_level("schedules-bound%d" % bound, sched, sched, complete, time.time() - t0, distinct, "all schedules with <= %d preemptions for %d thread mixes" % (bound, len(mixes)))
     rep.add_sample(dict(mix="email|email2", threads=2, jobs=["mail <a@b.c> here (EXT_OBFUSCATE, html)", "<mailto:x@y.zz> text (html)"], bound=bound))
     rep.add_sample(dict(mix="plain|plain-latex", note="negative control: no shared state touched"))
+    # 2b. the same explorer on a build instrumented with -finstrument-functions: EVERY function entry of the library is a scheduling
+    #     point; all schedules with at most one preemption (two tiny documents): catches state shared through a variable the
+    #     accessor-level hooks do not know about (a hoisted static buffer, a lazily built table)
+    t2 = time.time(); fmix = ["tiny-a|tiny-b", "tiny-b|tiny-c"] if tier == "quick" else ["tiny-a|tiny-b", "tiny-b|tiny-c", "tiny-a|tiny-c", "tiny-a|tiny-a"]
+    r = subprocess.run([ex["sched_fn"], "1", str(int(dl * 0.25))] + fmix, capture_output=True, env=core.driver_env())
+    fsched = 0; fcomplete = True; fdist = 0
+    for ln in r.stdout.decode(errors="replace").splitlines():
+        try: x = json.loads(ln)
+        except ValueError: continue
+        if x["t"] == "bound":
+            fsched += x["schedules"]; fdist += x["distinct_outcomes"]; fcomplete &= x["complete"]
+            rep.extra.setdefault("bounds_function_granularity", []).append({k: v for k, v in x.items() if k != "t"})
+        elif x["t"] == "viol":
+            rep.add_violation(x["sig"] + ":function-granularity", x["detail"], dict(mix=x["mix"], preemptions=x["preemptions"], preempted_at=x["schedule"]), replay=dict(kind="sched_fn", mix=x["mix"], bound=1))
+        elif x["t"] == "internal": rep.internal_errors.append(x["what"])
+    if r.returncode != 0: rep.internal_errors.append("c17_sched (instrumented) exited %d: %s" % (r.returncode, r.stderr.decode(errors="replace")[-300:]))
+    rep.states += fsched; rep.transitions += fsched; rep.traces += fsched
+    rep.add_level("schedules-function-granularity-bound1", fsched, fsched, fcomplete, time.time() - t2, max(fdist, 2), "all schedules with <= 1 preemption at ANY function entry of the library, %d mixes of two tiny documents" % len(fmix))
     # 3. free-running TSan pass
     t1 = time.time()
     env = core.driver_env(); env["TSAN_OPTIONS"] = "halt_on_error=0:report_signal_unsafe=0"
@@ -78,6 +97,8 @@ def run(tier):
 
 def replay(rec):
     ex = exes(); rp = rec["replay"]
+    if rp["kind"] == "sched_fn":
+        r = subprocess.run([ex["sched_fn"], "1", "300", rp["mix"]], capture_output=True); print(r.stdout.decode()[-3000:]); return 1
     if rp["kind"] == "sched":
         r = subprocess.run([ex["sched"], str(max(rp["bound"], 1)), "300", rp["mix"]], capture_output=True); print(r.stdout.decode()[-3000:]); return 1
     env = core.driver_env(); env["TSAN_OPTIONS"] = "halt_on_error=0"
